@@ -30,9 +30,9 @@ impl<'a, K: Integer, V: Offset> DictionaryDeserializer<'a, K, V> {
         })
     }
 
-    pub fn get_str(&self, idx: usize) -> Result<&str> {
+    pub fn get_str(&self, idx: usize) -> Result<&'a str> {
         let key: usize = self.keys.get_required(idx)?.into_i64()?.try_into()?;
-        let value: &str = self.values.get_required(key)?;
+        let value: &'a str = self.values.get_required(key)?;
         Ok(value)
     }
 }
@@ -56,7 +56,7 @@ impl<'de, K: Integer, V: Offset> RandomAccessDeserializer<'de>
     }
 
     fn deserialize_str<VV: Visitor<'de>>(&self, visitor: VV, idx: usize) -> Result<VV::Value> {
-        try_(|| visitor.visit_str(self.get_str(idx)?)).ctx(self)
+        try_(|| visitor.visit_borrowed_str(self.get_str(idx)?)).ctx(self)
     }
 
     fn deserialize_string<VV: Visitor<'de>>(&self, visitor: VV, idx: usize) -> Result<VV::Value> {
